@@ -25,7 +25,7 @@ import (
 	"github.com/flamego/flamego/verifharness/internal/rt"
 )
 
-const rule = "case = options (Charset, JSONIndent, XMLIndent; or none) x Renderer placed as application middleware, group handler or route handler (optionally with another, differently configured Renderer in front of it as application middleware) x 1..3 later handlers of which one renders x a render call: JSON of a randomly nested value (maps, slices, strings with <>&, numbers, booleans, null) of a tagged struct, or of a byte slice / named byte slice / json.RawMessage, XML of a struct with attributes, nested, optional and repeated elements and a field that encodes itself through pointer-receiver marshalers (JSON and XML alike; the value is passed by pointer), or of a value whose encoding is empty (empty / nil slice, nil pointer), Binary of arbitrary bytes, PlainText of arbitrary text (payloads now and then 0.5..70 KB), with a status in 100..999, for GET / POST / HEAD; optionally the rendering handler first calls Next() (with or without the Logger middleware right behind it), cancels its own request, or serves a nested request through the same application (which renders something else) before rendering its own response, optionally a middleware in front or the handler itself has already put some other Content-Type on the response; with the Renderer as application middleware also a request of method GET / POST / PROPFIND / get / Put that ends in a rendering not-found handler, and optionally a route whose rendering handler is started by the second Next() of a middleware in front of the Renderer. " +
+const rule = "case = options (Charset, JSONIndent, XMLIndent; or none) x Renderer placed as application middleware, group handler or route handler (optionally with another, differently configured Renderer in front of it as application middleware) x optionally an earlier request of the same application that rendered an unencodable value of the same Go type (a map or list holding a channel; its own outcome is not judged) x 1..3 later handlers of which one renders x a render call: JSON of a randomly nested value (maps, slices, strings with <>&, numbers, booleans, null) of a tagged struct, or of a byte slice / named byte slice / json.RawMessage, XML of a struct with attributes, nested, optional and repeated elements and a field that encodes itself through pointer-receiver marshalers (JSON and XML alike; the value is passed by pointer), or of a value whose encoding is empty (empty / nil slice, nil pointer), Binary of arbitrary bytes, PlainText of arbitrary text (payloads now and then 0.5..70 KB), with a status in 100..999, for GET / POST / HEAD; optionally the rendering handler first calls Next() (with or without the Logger middleware right behind it), cancels its own request, or serves a nested request through the same application (which renders something else) before rendering its own response, optionally a middleware in front or the handler itself has already put some other Content-Type on the response; with the Renderer as application middleware also a request of method GET / POST / PROPFIND / get / Put that ends in a rendering not-found handler, and optionally a route whose rendering handler is started by the second Next() of a middleware in front of the Renderer. " +
 	"Oracle: the spy writer got exactly the given status once and before the body; Content-Type is the documented media type with the configured (default utf-8) charset; Binary / PlainText bodies are verbatim; the JSON body is valid JSON laid out with the configured indentation and json.Unmarshal of it is DeepEqual to the value; the XML body decodes into an equal struct and is indented iff an indentation is configured; every handler after the middleware receives a Render. " +
 	"non-trivial = a non-200 status, a non-default option, a value nested >= 2 deep, a nested request, a Content-Type set before the render call, or a HEAD request; distinct by case text"
 
@@ -139,6 +139,23 @@ type Case struct {
 	// middleware stands right behind it.
 	AfterNext    bool `json:"renders_after_next,omitempty"`
 	LoggerBehind bool `json:"logger_behind_the_rendering_handler,omitempty"`
+	// Unenc (kind json with a map or a list on top): an earlier request of the
+	// same application rendered a value of the same Go type that cannot be
+	// encoded (it holds a channel). What that request gets is not judged - the
+	// statement speaks about encodable values - the request under test is.
+	Unenc bool `json:"unencodable_value_of_the_same_type_rendered_before,omitempty"`
+}
+
+// unencodableTwin returns a value of v's dynamic type that the JSON encoder
+// refuses, or nil when the type has no such value.
+func unencodableTwin(v interface{}) interface{} {
+	switch v.(type) {
+	case map[string]interface{}:
+		return map[string]interface{}{"ok": "text", "ch": make(chan int)}
+	case []interface{}:
+		return []interface{}{"text", func() {}}
+	}
+	return nil
 }
 
 func (c Case) value() interface{} {
@@ -262,6 +279,8 @@ func checkCase(c Case) (out evid.Outcome) {
 		hs = append(hs[:c.Which+1:c.Which+1], append([]flamego.Handler{flamego.Logger()}, hs[c.Which+1:]...)...)
 	}
 	innerH := func(r flamego.Render) { r.PlainText(202, "inner-text") }
+	twin := unencodableTwin(v)
+	unencH := func(r flamego.Render) { r.JSON(200, twin) }
 	if c.PreCT == "first" {
 		f.Use(func(ctx flamego.Context) {
 			ctx.ResponseWriter().Header().Set("Content-Type", "application/octet-stream")
@@ -288,16 +307,26 @@ func checkCase(c Case) (out evid.Outcome) {
 			})
 		f.Any("/r", hs...)
 		f.Get("/inner", innerH)
+		f.Get("/unenc", unencH)
 		// the not-found chain runs after the application middleware as well
 		f.NotFound(func(r flamego.Render) { r.PlainText(404, "nothing-here") })
 	case "group":
 		f.Group("/g", func() {
 			f.Any("/r", hs...)
 			f.Get("/inner", innerH)
+			f.Get("/unenc", unencH)
 		}, renderer)
 	case "route":
 		f.Any("/r", append([]flamego.Handler{renderer}, hs...)...)
 		f.Get("/inner", renderer, innerH)
+		f.Get("/unenc", renderer, unencH)
+	}
+	if c.Unenc && c.Kind == "json" && twin != nil {
+		func() {
+			defer func() { _ = recover() }()
+			f.ServeHTTP(rt.NewSpy(), rt.NewRequest("GET", prefix(c)+"/unenc", nil))
+		}()
+		out.Classes = append(out.Classes, "unencodable-twin-rendered-before")
 	}
 	if c.At == "use" {
 		nf := rt.NewSpy()
@@ -681,6 +710,7 @@ func genCase(t *rapid.T) Case {
 			panic(err)
 		}
 		c.JSON = raw
+		c.Unenc = rapid.IntRange(0, 3).Draw(t, "unenc") == 0
 	case "jsonbytes":
 		c.Empty = []string{"bytes", "named", "rawmessage"}[rapid.IntRange(0, 2).Draw(t, "jbk")]
 		c.Bytes = strconv.QuoteToASCII(string(rapid.SliceOfN(rapid.Byte(), 1, 24).Draw(t, "jbytes")))
